@@ -23,7 +23,7 @@ RULE = ('older tree (plain mappings/lists/scalars, optionally !call nodes as ent
 BUDGET = {'quick': (4, 1500), 'thorough': (16, 10000)}
 ASSUMPTIONS = ['focus paths never run through or end at a function node (Call <- dict updates arguments by design)',
                'protected survivors whose path runs through a non-mapping of the newer content are not generated',
-               'explicit !del on falsy scalars / empty containers (remove-this-key idiom) only in sub-check (d) as value-less !del']
+               'an explicit !del on an empty container removes the key like a value-less !del does (the idiom of the repository\'s own fixtures); an explicit !del on a falsy scalar (0, false, \'\') is content']
 
 KEYS = ['a', 'b', 'c', 'x', '_u', 0, 1, -1]
 LEAF = S.scalar_node(st.one_of(st.integers(0, 9), st.sampled_from(['s', 't', '', 1.5, True, None])))
@@ -259,7 +259,9 @@ def _case(draw):
                 # priorities: an explicit !del that is outranked must leave the (possibly falsy) older entry alone
                 case['old_force'] = draw(st.integers(0, 2)) == 0
                 case['del_weak'] = draw(st.integers(0, 3)) == 0
-                case['del_form'] = draw(st.sampled_from(['valueless', 'valueless', 'scalar']))
+                # 'falsy': a scalar like 0 / '' / false is content (the remove-this-key idiom is a value-less !del, or an empty !del container)
+                case['del_form'] = draw(st.sampled_from(['valueless', 'valueless', 'scalar', 'falsy', 'falsy', 'empty']))
+                case['del_val'] = draw(st.integers(0, 3))
                 if draw(st.integers(0, 2)) == 0:
                     # make the older entry falsy (the remove-this-key logic looks at truthiness)
                     tgt = [v for kk, v in cur['items'] if kk == case['key'] and type(kk) is type(case['key'])][0]
@@ -576,7 +578,16 @@ def run_case(case):
                 mid_text = tdoc.render(_wrap(path + [key], midn))
                 labels.add('d-clear-after-explicit-del-stage')
         else:
-            node = tdoc.empty(**{'del': True}) if case.get('del_form', 'valueless') == 'valueless' else tdoc.sc(5, **{'del': True})
+            form = case.get('del_form', 'valueless')
+            falsy_val = [0, False, '', 0.0][case.get('del_val', 0)]
+            if form == 'valueless':
+                node = tdoc.empty(**{'del': True})
+            elif form == 'falsy':
+                node = tdoc.sc(falsy_val, q='single' if falsy_val == '' and isinstance(falsy_val, str) else 'plain', **{'del': True})
+            elif form == 'empty':
+                node = (tdoc.mp if case.get('del_val', 0) % 2 else tdoc.sq)([], flow=True, **{'del': True})
+            else:
+                node = tdoc.sc(5, **{'del': True})
             if case.get('del_weak'):
                 node['prio'] = -1
                 node['mdstyle'] = 'braces'
@@ -602,8 +613,11 @@ def run_case(case):
                 expected = old_ev
                 labels.add('d-outranked-del')
                 nontrivial = True
-            elif case.get('del_form', 'valueless') == 'valueless':
+            elif case.get('del_form', 'valueless') in ('valueless', 'empty'):
                 expected = replace_at(old_ev, path + [key], None, remove=True)
+            elif case.get('del_form') == 'falsy':
+                expected = replace_at(old_ev, path + [key], falsy_val)
+                labels.add('d-explicit-del-with-a-falsy-scalar')
             else:
                 expected = replace_at(old_ev, path + [key], 5)
             if status != 'ok' or O.canon_unordered(got) != O.canon_unordered(expected):
